@@ -1,6 +1,6 @@
 (* C06 — Every stochastic trajectory is a feasible reaction path. *)
 From Coq Require Import ZArith Reals List Bool Arith.
-From BS Require Import Base.Arith Model.Term Model.Propensity Model.Interface Model.Rules Model.Random Model.Queue Model.SSA Proofs.DelayAccounting
+From BS Require Import Base.Arith Model.Term Model.Propensity Model.Interface Model.Rules Model.Random Model.Queue Model.SSA Proofs.DelayAccounting Proofs.VolumePaths
                        Spec.RateLaws Proofs.RateProofs Proofs.SSAProofs Proofs.SSAReal Proofs.FeasibleProofs Proofs.BuilderProofs.
 Import ListNotations.
 
@@ -71,8 +71,12 @@ Proof.
   exact (proj1 (delay_run_accounting s H1 H2 H3 ncols fuel gfuel qdt qt ts u pos st Hn H)).
 Qed.
 
-(* The volume simulator shares record / fire with these loops; its lattice statement is not
-   mechanised (C06_partial): it is covered by the stream replay and the integer-programme oracle. *)
+(* Volume-aware simulator (any arithmetic, stream, fuel, grid, volume model; no rules): the reported rows are linked by
+   reaction paths from the initial state, exactly as for the plain loop. *)
+Theorem C06_volume_rows_are_paths :
+  forall F (A : Arith F) (s : sim F) (vm : volmodel (F:=F)), sm_rules s = [] ->
+  forall fuel V0 ts u pos st, vssa_simulate A fuel s vm V0 ts u pos = Done st -> chain A s (sm_x0 s) (vs_rows st).
+Proof. exact @vssa_rows_are_paths. Qed.
 
 Print Assumptions C06_rows_are_paths.
 Print Assumptions C06_conservation.
@@ -82,3 +86,4 @@ Print Assumptions C06_safe_never_starves.
 Print Assumptions C06_requirement_sufficient.
 Print Assumptions C06_massaction_supplied.
 Print Assumptions C06_delay_rows_on_lattice.
+Print Assumptions C06_volume_rows_are_paths.
